@@ -505,4 +505,112 @@ func checkC19(p *Prog, r *Report) {
 		r.Check(hit == "", kp("REACH", "upgrade:"+uname+"#custom-data-untouched"), "no code of a registered upgrade package reaches a store mutator of the aol/did/pnft keepers (definite call edges)", "app/upgrades",
 			fmt.Sprintf("%d functions reachable, none mutates custom-module data", len(reach.Order)), "upgrade "+uname+" rewrites "+hit)
 	}
+	// D6 the version map an upgrade handler hands back on success is the one RunMigrations produced: x/upgrade stores it as the
+	// chain's module version map, and a stale map makes the next upgrade run InitGenesis / migrations again on a populated chain
+	nH := 0
+	hnames := []string{}
+	byName := upgradeHandlerFns(p, w)
+	for n := range byName {
+		hnames = append(hnames, n)
+	}
+	sort.Strings(hnames)
+	for _, uname := range hnames {
+		for _, fn := range byName[uname] {
+			sig := fn.Signature
+			if fn.Parent() == nil || sig.Params().Len() != 3 || sig.Results().Len() != 2 || !strings.HasSuffix(sig.Results().At(0).Type().String(), "types/module.VersionMap") || !isErrorType(sig.Results().At(1).Type()) {
+				continue
+			}
+			nH++
+			bad := ""
+			for _, ret := range returnsOf(fn) {
+				vm, ev := unspill(ret.Results[0]), unspill(ret.Results[1])
+				fromRun := func(v ssa.Value, idx int) *ssa.Call {
+					ex, ok := v.(*ssa.Extract)
+					if !ok || ex.Index != idx {
+						return nil
+					}
+					c, ok := ex.Tuple.(*ssa.Call)
+					if !ok || !strings.HasSuffix(calleeName(&c.Call), "types/module.Manager).RunMigrations") {
+						return nil
+					}
+					return c
+				}
+				switch {
+				case fromRun(vm, 0) != nil && fromRun(vm, 0) == fromRun(ev, 1): // return mm.RunMigrations(…)
+				case isNilConst(ev):
+					if fromRun(vm, 0) == nil {
+						bad = p.Pos(ret.Pos())
+					}
+				default: // a failing return: the map is ignored by x/upgrade
+				}
+			}
+			r.Check(bad == "", kp("ORIGIN", "upgrade:"+uname+"#returns-migrated-version-map"), "an upgrade handler's successful return hands back the version map RunMigrations produced", p.FnPos(fn),
+				"success ⇒ map ≡ res#0(RunMigrations)", fmt.Sprintf("the successful return at %s hands back a version map that is not RunMigrations' result: x/upgrade records stale module versions, and the next upgrade re-runs InitGenesis/migrations of modules that are already there (the upgrade block halts)", bad))
+		}
+	}
+	r.Floor("upgrade-handler-closures", nH, len(hnames))
+	// D7 legacy params subspaces: the v0.47 migration handler gives a key table to every subspace it knows by name and calls
+	// WithKeyTable(<zero table>) — a panic — on any other subspace without one. Every name registered with the params keeper is a
+	// case of that handler's switch, or a subspace whose own keeper installs its key table (IBC core and transfer).
+	if ipk := p.Func(Rel("app/keepers"), "initParamsKeeper"); ipk != nil {
+		selfTabled := map[string]string{`"transfer"`: "ibc-transfer keeper installs its key table", `"ibc"`: "ibc core keeper installs its key table"}
+		var registered []string
+		for _, cs := range callSites(ipk) {
+			if strings.HasSuffix(cs.Name, "x/params/keeper.Keeper).Subspace") {
+				args := cs.Instr.Common().Args
+				if c, ok := args[len(args)-1].(*ssa.Const); ok && c.Value != nil {
+					registered = append(registered, c.Value.ExactString())
+				} else {
+					registered = append(registered, "?")
+				}
+			}
+		}
+		// the handlers that walk GetSubspaces and install key tables
+		for _, uname := range hnames {
+			for _, fn := range byName[uname] {
+				walks := false
+				for _, cs := range callSites(fn) {
+					if strings.HasSuffix(cs.Name, "x/params/keeper.Keeper).GetSubspaces") {
+						walks = true
+					}
+				}
+				if !walks {
+					continue
+				}
+				cases := map[string]bool{}
+				for _, b := range fn.Blocks {
+					for _, in := range b.Instrs {
+						bo, ok := in.(*ssa.BinOp)
+						if !ok || bo.Op != token.EQL {
+							continue
+						}
+						x, y := bo.X, bo.Y
+						if _, isC := x.(*ssa.Const); isC {
+							x, y = y, x
+						}
+						c, isC := y.(*ssa.Const)
+						call, isCall := x.(*ssa.Call)
+						if isC && isCall && c.Value != nil && strings.HasSuffix(calleeName(&call.Call), "x/params/types.Subspace).Name") {
+							cases[c.Value.ExactString()] = true
+						}
+					}
+				}
+				if len(cases) == 0 {
+					r.OKTrivial(kp("WIRE", "upgrade:"+uname+"#every-legacy-subspace-has-a-key-table"), "every legacy params subspace the app registers gets a key table from the migration handler", p.FnPos(fn),
+						"the handler does not choose key tables by comparing subspace names with constants: not decided")
+					continue
+				}
+				var missing []string
+				for _, n := range registered {
+					if !cases[n] && selfTabled[n] == "" {
+						missing = append(missing, n)
+					}
+				}
+				r.Check(len(missing) == 0 && len(registered) > 0, kp("WIRE", "upgrade:"+uname+"#every-legacy-subspace-has-a-key-table"),
+					"every legacy params subspace the app registers gets a key table from the migration handler (or from its own keeper): the handler calls WithKeyTable on each subspace that has none", p.FnPos(fn),
+					fmt.Sprintf("%d subspaces registered, %d handled by the handler's switch, %d install their own", len(registered), len(cases), len(selfTabled)),
+					fmt.Sprintf("subspace(s) %v registered in initParamsKeeper are not handled by the switch in the %s handler and install no key table themselves: WithKeyTable(<zero table>) panics and the upgrade block halts", missing, uname))
+			}
+		}
+	}
 }
